@@ -134,7 +134,10 @@ func readFile(delegate DecoderDelegate, expectedSetID *recoverySetID, fileBytes 
 		return recoverySetID{}, file{}, noPacketsFoundError{}
 	}
 
-	if !foundClientID {
+	// The index file must name its creator. A recovery file (read
+	// with an expected set ID, for its recovery packets only) whose
+	// creator packet is missing or damaged is still usable.
+	if !foundClientID && expectedSetID == nil {
 		return recoverySetID{}, file{}, errors.New("no creator packet found")
 	}
 
